@@ -103,12 +103,18 @@ class ExprGen:
         self.leafconts = [p for p in spec.containers
                           if all(c in spec.leaf_type for c in spec.children[p])]
         self.ops_off = set(cfg.get("ops_off", ()))
+        if cfg.get("nplit"):
+            # a comparison involving a numpy scalar yields numpy.bool_, whose ~ - + differ from python's bool:
+            # value semantics of numpy types are not what these workloads are about
+            self.ops_off.add("cmp")
         self.no_eqne = bool(cfg.get("no_eqne", False))
 
     def lit(self, typ):
         rng = self.rng
         if typ == "i":
             return ("lit", rng.choice([0, 1, 2, 3, -1, -2, -3, 5, 7, 10]))
+        if self.cfg.get("nplit") and rng.random() < 0.3:
+            return ("nplit", rng.choice([0.5, 2.0, -1.5, 0.25, 3.0]))
         return ("lit", rng.choice([0.5, 2.0, -1.5, 0.25, 3.0, 1e-3, 1.5e2, -0.75, 1.0, 0.0, -0.0, -2e-05]))
 
     def pick(self, cands):
@@ -129,6 +135,15 @@ class ExprGen:
         if typ == "i" and not self.ileaves:
             return None
         return ("ref", rng.choice(pool))
+
+    def gen_arg(self, typ, depth, need_ref):
+        """argument of a call: CallRef prints arguments with repr(), a numpy scalar would print as np.float64(..)"""
+        keep = self.cfg.get("nplit")
+        self.cfg["nplit"] = False
+        try:
+            return self.gen(typ, depth, need_ref)
+        finally:
+            self.cfg["nplit"] = keep
 
     def gen(self, typ, depth, need_ref=True):
         rng = self.rng
@@ -193,14 +208,14 @@ class ExprGen:
         if k == "call":
             f = rng.choice(["add3", "lin", "mix"])
             if f == "add3":
-                args = (self.gen("f", d, True), self.gen("f", d, False))
-                kw = (("c", self.gen("f", 0, False)),) if rng.random() < 0.5 else ()
+                args = (self.gen_arg("f", d, True), self.gen_arg("f", d, False))
+                kw = (("c", self.gen_arg("f", 0, False)),) if rng.random() < 0.5 else ()
             elif f == "lin":
-                args = (self.gen("f", d, True),)
-                kw = tuple(x for x in [("k", self.lit("f")) if rng.random() < 0.6 else None,
-                                       ("q", self.gen("f", 0, False)) if rng.random() < 0.4 else None] if x)
+                args = (self.gen_arg("f", d, True),)
+                kw = tuple(x for x in [("k", self.gen_arg("f", -1, False)) if rng.random() < 0.6 else None,
+                                       ("q", self.gen_arg("f", 0, False)) if rng.random() < 0.4 else None] if x)
             else:
-                args = (self.gen("f", d, True), self.gen("f", d, False))
+                args = (self.gen_arg("f", d, True), self.gen_arg("f", d, False))
                 kw = (("w", ("lit", rng.choice([0.25, 0.5, 0.75]))),) if rng.random() < 0.5 else ()
             return ("call", f, args, kw)
         if k == "vsum":
@@ -216,6 +231,9 @@ class ExprGen:
         if b[0] == "lit" and o in ("/", "//", "%") and rng.random() < 0.8 and b[1] == 0:
             b = ("lit", 2 if tb == "i" else 2.0)
         if rng.random() < 0.35:
+            a, b = b, a
+        if a[0] == "nplit":
+            # a numpy scalar standing to the LEFT of a reference owns the operator (numpy, not xdeps, evaluates it)
             a, b = b, a
         return ("bin", o, a, b)
 
